@@ -51,7 +51,7 @@ let () = iter_lines (fun line ->
         | _ -> 0 in
       let band = match r with
         | TjOk (x1, _, w1, _) when iz w1 <> sw && iz x1 > 0 && smoothing_active (zi mode) (zi 0) ->
-          iz (smooth_left_band mcuw_scaled (not fu))
+          iz (smooth_left_band gen_smooth_left_real mcuw_scaled (not fu))
         | _ -> 0 in
       Printf.printf "tj sub=%d sf=%d/%d dims %d %d full=0 set=%s | haz %d over=0 band=%d gok=1\n" sub (iz num) (iz den) sw sh
         (match r with TjErr -> "-1" | _ -> "0 dec=0") hz band
@@ -87,7 +87,7 @@ let () = iter_lines (fun line ->
           | CropWhole -> Buffer.add_string b (Printf.sprintf " | crop %d %d ow=%d win" cx cw cw)
           | CropOk (x', w', fi, li) ->
             haz5 := crop_reinit_hazard gen_DCTSIZE (zi w) zcomps k w' && not gen_crop_merged_guard;
-            if sm = 1 && iz x' > 0 then band := iz (smooth_left_band align fancy);
+            if sm = 1 && iz x' > 0 then band := iz (smooth_left_band gen_smooth_left_real align fancy);
             Buffer.add_string b (Printf.sprintf " | crop %d %d ow=%d win %d %d" (iz x') (iz w') (iz w') (iz fi) (iz li));
             List.iter (fun (hs, _) ->
                 let (f, l) = comp_window align x' w' (if single then zi 1 else hs) in
